@@ -42,6 +42,9 @@ type HarnessCfg struct {
 	// OnlyKinds: finding kinds that count for THIS property (a harness shared with another
 	// property may assert more than this property states); empty = all kinds
 	OnlyKinds []string `json:"only_kinds"`
+	// OnlyLabels: besides the kinds above, ASSERT findings whose label contains one of these
+	// substrings count
+	OnlyLabels []string `json:"only_labels"`
 	ReplayRepeat int             `json:"replay_repeat"`
 }
 
@@ -571,8 +574,8 @@ func cmdCheck(args []string) int {
 			fmt.Println(msg)
 			notes = append(notes, msg)
 		}
-		counts := func(kind string) bool {
-			if len(hr.cfg.OnlyKinds) == 0 {
+		counts := func(kind, label string) bool {
+			if len(hr.cfg.OnlyKinds) == 0 && len(hr.cfg.OnlyLabels) == 0 {
 				return true
 			}
 			for _, k := range hr.cfg.OnlyKinds {
@@ -580,10 +583,17 @@ func cmdCheck(args []string) int {
 					return true
 				}
 			}
+			if kind == "ASSERT" {
+				for _, l := range hr.cfg.OnlyLabels {
+					if strings.Contains(label, l) {
+						return true
+					}
+				}
+			}
 			return false
 		}
 		for _, f := range r.Findings {
-			if !counts(f.Kind) {
+			if !counts(f.Kind, f.Label) {
 				continue // decided under the property this harness belongs to
 			}
 			key := hr.cfg.Func + "/" + f.Key
@@ -611,7 +621,7 @@ func cmdCheck(args []string) int {
 			} else if nf.outcome.Outcome == "timeout" {
 				nk = "UNWIND"
 			}
-			if !counts(nk) {
+			if !counts(nk, nf.outcome.Outcome) {
 				continue
 			}
 			key := fmt.Sprintf("%s/NATIVE:%s", hr.cfg.Func, nf.outcome.Outcome)
